@@ -206,3 +206,30 @@ def _literal_range(ctx):
     diag = [n for n in walk_no_nested(fn) if isinstance(n, ast.If) and _is_diag(n.body)]
     ok = any(("limit_max(%s)" % typ) in norm(sym.deep_inline(d.test, env)) for d in diag) if typ else False
     ctx.ob("C28.R4", site, "the diagnostic compares against limit_max of the literal's own type `%s`" % typ, ok, construct="limit-of-own-type", detail=str([norm(d.test) for d in diag]))
+    _init_cursor(ctx)
+
+
+def _init_cursor(ctx):
+    """R6: brace elision - after a value the cursor leaves EVERY implicit level that has just been filled"""
+    I = "ppci/lang/c/init.py"
+    ctx.rule("C28.R6", "initializer cursor: advancing leaves all exhausted implicit (brace-elided) levels, not just one - otherwise the next value is stored past the last field of an inner aggregate (IndexError)", floor=2)
+    ne = ctx.fn(I, "InitCursor.next_element")
+    site = I + ":InitCursor.next_element"
+    lv = [c for c in ast.walk(ne) if isinstance(c, ast.Call) and norm(c.func) == "self.leave_compound"]
+    ctx.need(len(lv) == 1, "next_element: leave_compound call not found")
+    loops = [a for a in _anc28(lv[0]) if isinstance(a, ast.While)]
+    ok = bool(loops) and "at_end()" in norm(loops[0].test) and ".implicit" in norm(loops[0].test)
+    ctx.ob("C28.R6", site, "leaving exhausted implicit levels is a loop (`while level.at_end() and level.implicit`), so two nested levels that end on the same value are both left", ok, construct="leave-all-levels", node=lv[0],
+           detail="enclosed by %s" % (type([a for a in _anc28(lv[0]) if isinstance(a, (ast.If, ast.While))][0]).__name__ if [a for a in _anc28(lv[0]) if isinstance(a, (ast.If, ast.While))] else "nothing"))
+    gn = [c for c in ast.walk(ne) if isinstance(c, ast.Call) and norm(c.func) == "self.level.go_next"]
+    ok = len(gn) == 2 and gn[0].lineno < lv[0].lineno < gn[1].lineno and bool(loops) and any(x is gn[1] for x in ast.walk(loops[0]))
+    ctx.ob("C28.R6", site, "the cursor advances once in the current level and once in each level it returns to", ok, construct="advance-each-level")
+
+
+def _anc28(n):
+    out = []
+    n = getattr(n, "_parent", None)
+    while n is not None:
+        out.append(n)
+        n = getattr(n, "_parent", None)
+    return out
